@@ -585,6 +585,9 @@ let eval (fn : string) (args : string list) : string =
   | "Convert", [cfg; src] ->
     (match convertModelC (parse_rcfg cfg) (bytes_of_hex src) with
      | Ok o -> hex_of_bytes o | Panic -> "PANIC" | OutOfFuel -> "FUEL")
+  | "ConvertA", [cfg; src] ->
+    (match convertModelA (parse_rcfg cfg) (bytes_of_hex src) with
+     | Ok o -> hex_of_bytes o | Panic -> "PANIC" | OutOfFuel -> "FUEL")
   | "ParseAttrs", [src; adv] ->
     let rec pv = function
       | PBytes v -> "b" ^ hex_of_bytes v | PNumber -> "n" | PBool b -> if b then "t" else "f" | PNull -> "z"
